@@ -36,7 +36,7 @@ type fnInfo struct {
 
 func NewGen(seed int64) *Gen { return &Gen{r: rand.New(rand.NewSource(seed)), MaxDepth: 3, MaxTop: 5} }
 
-func (g *Gen) pick(n int) int { return g.r.Intn(n) }
+func (g *Gen) pick(n int) int    { return g.r.Intn(n) }
 func (g *Gen) chance(p int) bool { return g.r.Intn(100) < p }
 func (g *Gen) fresh(p string) string {
 	g.uniq++
